@@ -1,6 +1,7 @@
 (* Props/C11.v — key-tree lookups by name/index path and by (slot, offset, type) agree with the
    registrations.  Model: Model/KeyTree.v; proofs: Proofs/KeyTree_proofs.v. *)
 From Verif Require Import Base.Bytes Model.KeyTree Proofs.KeyTree_proofs.
+From Verif Require Import Gen.GenProps Gen.G11.
 Open Scope N_scope.
 
 (** The invariant [Inv] holds in every state reachable from the empty journal by any finite
@@ -79,3 +80,9 @@ Proof.
   cbn [hist_ok]. repeat split; cbn -[compatible]; unfold compatible, cidx, find_key; cbn;
     try (intros e H; discriminate); try tauto.
 Qed.
+
+(** Tie to the source: every declaration this model mirrors (Gen/Pins.v, group 11) still has the digest
+    of the version the model was written against (regenerated from /repo on every run). *)
+Theorem C11_source_reviewed : group_ok 11 = true.
+Proof. exact gen_group_11. Qed.
+Print Assumptions C11_source_reviewed.
